@@ -414,12 +414,20 @@ def run(tier):
                       "drv/conftext.c projects the node tree without judgement (identifier bytes, mpt_node_data text, links)",
                       "the language is the one the generator writes (docs/C09.md, interpretations); the exhaustive model is bounded",
                       "unambiguity is decided over the bounded exhaustive set only"]
+    # extension X09: the front ends (files, folders, C++ parser), option start character / empty names / flag sets,
+    # allocation failures (checks/x09_front.py, docs/X09_front.md; the clean-failure side reads C08's statement)
+    import x09_front
+    if x09_front.enabled():
+        x09_front.run_part(ck, tier)
     return ck.finish()
 
 
 def replay(path):
     d = json.load(open(path))
     det = d["detail"]
+    if det.get("part") == "x09":
+        import x09_front
+        return x09_front.replay(det, path)
     beh = det.get("behaviour")
     if not beh:
         print(json.dumps(det, indent=1)[:4000])
